@@ -88,8 +88,8 @@ NOT_YET = {
 # Later additions (appended to the text) and replaced notes, kept apart so that the history of a claim stays readable.
 EXTRA_TEXT = {
  "C01": " Added: the replayed row of a link stores the link path in the spelling lookups use (UpsertHeader sanitises name and link path alike); bounded stand-in sql:LinkListing runs the real persister on real SQLite in both index layouts (creating instance / rebuilt by replay).",
- "C02": " Added: a rename's children keep their relative names (new name = destination + stored name minus source prefix, for every spelling of the two); every delete operation issued by Rename and Remove goes through the guarded remove, which deletes a directory only after its listing came back empty and deletes exactly the named entry.",
- "C03": " Added: content completeness as a postcondition of recovery.Fetch over a history ghost (a regular member is reported restored only if a complete copy drained the verifier stream into the destination), the read pipeline wiring (decrypt the tape stream, decompress the decrypted stream, verify the decompressed stream, each with the configured format) and the write pipeline wiring in Archive/Update (compress into the encryptor, sign the source, whole source through the pipeline before Flush, configured formats and recipient).",
+ "C02": " Added: a rename's children keep their relative names (new name = destination + stored name minus source prefix, for every spelling of the two); every delete operation issued by Rename and Remove goes through the guarded remove, which deletes a directory only after its listing came back empty and deletes exactly the named entry; Rename(x, x) removes nothing; the root is never removed; O_CREATE|O_EXCL refuses an existing entry; a handle entering write mode loads the existing content whenever a fresh lookup reports a non-empty file.",
+ "C03": " Added: content completeness as a postcondition of recovery.Fetch over a history ghost (a regular member is reported restored only if a complete copy drained the verifier stream into the destination), the read pipeline wiring (decrypt the tape stream, decompress the decrypted stream, verify the decompressed stream, each with the configured format) and the write pipeline wiring in Archive/Update (compress into the encryptor, sign the source, whole source through the pipeline before Flush, configured formats and recipient, same compression level, drive kind and record size in the measuring and the writing pass); the codec suffix is never stripped from deletion, move or metadata-only records.",
  "C06": " Added: restoring a member whose content was cut short cannot report success (same history-ghost postcondition of Fetch as C03); reachability cover for the resynchronisation branch.",
  "C12": " Added: the children of a recursive Delete/Move come from the subtree query (not the one-level listing); Delete/Move records name exactly the stored rows; Rename rejects a destination inside the source by the *stored* names of source and destination parent (any spelling) and replaces an existing destination only through the guarded remove; bounded stand-ins now cover both index layouts and self-similar nesting.",
  "C13": " Added: Mkdir, OpenFile(O_CREATE), MkdirAll (every prefix) and Rename create or move entries only below an entry a lookup has just shown to be a directory; syncing an open file writes only if a lookup has just shown the entry to exist (no resurrection after remove); bounded stand-ins: exact one-level listings over self-similar names in both index layouts, links listed once with their target's attributes.",
@@ -98,7 +98,7 @@ EXTRA_TEXT = {
 }
 NOTE_OVERRIDE = {
  "C02": "Undecided: full reject/accept tables of DESIGN 4.2 against the reference semantics (only the clauses above), names preserved across attribute changes, OpenFile(O_CREATE|O_EXCL) on a missing file reports not-exist (outside the flags the property lists). Counter-models of these obligations are replayed by running scripted histories next to the OS filesystem (battery `tree`).",
- "C07": "Assumed: sqlboiler Insert/Update semantics as in specs/90_sql.spec. MoveHeader on an occupied new name is decided by the bounded stand-in sql:MoveHeader (real SQLite, all small views).",
+ "C07": "Assumed: sqlboiler Insert/Update semantics as in specs/90_sql.spec. MoveHeader on an occupied new name is decided by the bounded stand-in sql:MoveHeader (real SQLite, all small views, both index layouts: absolute names / rebuilt relative names).",
  "C13": "Undecided: a global tree well-formedness invariant over histories (only the per-call premises above); the SQL itself is bounded, not proved (<= 2 rows per view, thorough 3, 22-name alphabet, two layouts).",
  "C16": "Known finding (recorded, not repaired): records are appended at end-of-file wherever that is, so writes after opening a tape with a torn tail cannot be indexed (obligation appends-only-after-a-complete-record). Undecided: a stale index is accepted as is.",
 }
